@@ -33,9 +33,8 @@ CLAIMED = {
              "reversed edges give the same hits and misses; a crossing through a shared vertex is reported by both edges and merged into one point by "
              "wallIntersection for any positive tolerance; the tolerance only widens acceptance; closest_approach returns the minimum of the distance "
              "over the whole segment and attains it. The model is evaluated by vm_compute against the float implementation (find_intersections, "
-             "wallIntersection, polygons.area/clockwise/intersect, closest_approach) on lattice and random dyadic cases each run. wallIntersection is exercised through a real minimal Equilibrium whose constructor closes the wall; polygons.intersect is compared for all four combinations of closed flags (finding F26, fixed).",
-        note="Trusted: Coq kernel; the correspondence harness (hand model, not translated); polygons.intersect / area have no spec theorem beyond the exact "
-             "model they are compared with; cases whose exact outcome depends on the tolerance are counted as degenerate and not compared.",
+             "wallIntersection, polygons.area/clockwise/intersect, closest_approach) on lattice and random dyadic cases each run. wallIntersection is exercised through a real minimal Equilibrium whose constructor closes the wall; polygons.intersect is compared for all four combinations of closed flags (finding F26, fixed) and has spec theorems: its segment test reports exactly the PROPER crossings of segments that are not nearly parallel (sound and complete), is symmetric, and the polygon test is 'some edge crosses some edge', symmetric in its arguments. Walls with a repeated vertex (zero-length edges) are part of the correspondence.",
+        note="Trusted: Coq kernel; the correspondence harness (hand model, not translated); polygons.area has no spec theorem beyond the exact model it is compared with (orientation under reversal is C11's); cases whose exact outcome depends on the tolerance are counted as degenerate and not compared.",
         technique="Coq proof (field/lra over Q) on a hand model + differential correspondence",
         design="6/C20"),
     "C13": dict(
@@ -106,7 +105,7 @@ CLAIMED = {
              "FineContour.reverse, closest_approach, FineContour.getDistance (argmin, neighbour choice, weighting), FineContour.interpFunction (scipy interp1d with extrapolation: searchsorted, clip, chord). Theorems over R: calcDistance is the polygon length (0 at the first point, each "
              "increment the segment length, any number of points), at least the chord between any two points, strictly increasing iff no consecutive points coincide, the TRUE arc length on a "
              "straight contour however the points are spaced; reverse's cached distance equals recomputation on the reversed points; getDistance lies between the distances of two ADJACENT fine "
-             "points and is exact at a fine point; a point placed by interpFunction at distance s lies ON the polygon at the fraction where the polygon length is s, and getDistance measures exactly s for it when it selects the two ends of that segment (placing and measuring are inverse). FineContour.equaliseSpacing is modelled with refine as a parameter (theories/Model_Equalise.v): in ANY arithmetic the iteration stops after at most finecontour_maxits rounds, stops without the warning only when the spacing passes the tolerance test, and never moves the points at startInd / endInd. The PrimFloat instance of the same definitions is run bit for bit against the real methods (320 / 3000 cases per run; equaliseSpacing with refine stubbed to the identity, contours of 3 to 146 points: numpy's pairwise summation inside numpy.mean is modelled in all three regimes).",
+             "points and is exact at a fine point; a point placed by interpFunction at distance s lies ON the polygon at the fraction where the polygon length is s, and getDistance measures exactly s for it when it selects the two ends of that segment (placing and measuring are inverse). FineContour.equaliseSpacing is modelled with refine as a parameter (theories/Model_Equalise.v): in ANY arithmetic the iteration stops after at most finecontour_maxits rounds, stops without the warning only when the spacing passes the tolerance test, and never moves the points at startInd / endInd; over the reals numpy's pairwise summation is the sum and an accepted contour has every spacing within finecontour_atol of the mean spacing. The PrimFloat instance of the same definitions is run bit for bit against the real methods (320 / 3000 cases per run; equaliseSpacing with refine stubbed to the identity, contours of 3 to 146 points: numpy's pairwise summation inside numpy.mean is modelled in all three regimes).",
         note="Trusted: Coq kernel + Reals axioms (distance theorems); fingerprints + hand models; the arc-length contract of FineContour (polygon vs true arc between fine points) is monitored (3% threshold, observed <= 1.6%), X-point half cells excluded; "
              "quadratic convergence in finecontour_Nfine is not claimed by the quick tier.",
         technique="Coq proof (list lemmas, finite tables; reals for the distance kernels) on hand models + bit-exact PrimFloat correspondence + source fingerprints + grid oracle", design="6/C05"),
